@@ -219,7 +219,7 @@ class BOLFIRE(ModelBased):
                                              self.target_model.bounds)
 
         posterior = self.extract_result()
-        warmup = warmup or n_samples // 2
+        warmup = n_samples // 2 if warmup is None else warmup
 
         # Unless given, select the evidence points with best likelihood ratio
         if initials is not None:
